@@ -138,6 +138,11 @@ R('r_resize', ['C01', 'C03', 'C08', 'C13', 'C05'], ['RawTable::resize', 'RawTabl
   'resize_inner: same multiset, no tombstones, everything reachable in the new table', sizes=(4, 8, 16, 32))
 R('r_rehash_in_place', ['C01', 'C13', 'C05', 'C03'], ['RawTableInner::rehash_in_place', 'RawTableInner::prepare_rehash_in_place', 'RawTableInner::is_in_same_group'],
   'rehash_in_place: same multiset, same allocation, no tombstones, everything reachable')
+R('r_reserve', ['C13', 'C08', 'C01', 'C06'], ['RawTable::reserve', 'RawTableInner::reserve_rehash_inner'],
+  'reserve decision contract: untouched while growth_left suffices; tombstones reclaimed in place exactly when len + additional <= capacity/2; otherwise growth to capacity_to_buckets(max(len+additional, capacity+1)) and no more')
+R('r_insert_full_load', ['C14', 'C01', 'C06', 'C13'], ['RawTable::insert'],
+  'insert when growth_left == 0 and the first slot found is EMPTY: after reserve(1) (in place or growing) the slot is searched again; new element and all others reachable',
+  quick_iters=60000, thorough_iters=1500000)
 R('r_iter', ['C09'], ['RawIter::next', 'RawIter::size_hint'], 'RawIter contract on sampled states')
 R('r_map_lookup', ['C01', 'C18'], ['HashMap::get', 'HashMap::get_mut', 'HashMap::contains_key', 'HashMap::get_key_value', 'HashMap::get_key_value_mut', 'HashMap::index'],
   'HashMap lookups equal the association-list reference, also through an equivalent borrowed key; map unchanged')
